@@ -231,6 +231,16 @@ def c13_4(R):
             R.fail([D + "::run_once", "cleanup_accept_queue-not-before-select"], "the SYN backlog is not re-examined on every dispatcher iteration: after a connection slot frees up, a parked SYN and a waiting accept() are never paired (both hang) and later SYNs overtake it", where=(bad[0].where() if bad else b.where()), instance="cleanup-every-iteration")
     if not found:
         R.fail([D + "::run_once", "anchor"], "select! arms of run_once not found", instance="cleanup-every-iteration")
+    # ... and the re-examination is skipped only when the connection table is full
+    cq = R.body(D + "::cleanup_accept_queue")
+    pf = [t for t in cq.calls() if call_on_field(cq, t, ("VecDeque::pop_front",), SYNS)]
+    R.floor("syns.pop_front in cleanup_accept_queue", len(pf), 1)
+    for t in pf:
+        ds = [d for c, truth, d, *_ in controlling(cq, t.bb)]
+        if "call:Dispatcher::streams_full=true" in ds:
+            R.fail([cq.name, "backlog-examined-only-when(streams_full)"], "the backlog is examined only while the connection table is full (when nothing can be accepted) and skipped when there is room: parked SYNs are never paired", where=t.where(), instance="cleanup-when-room")
+        else:
+            R.ok("cleanup-when-room", cq.name, "the backlog loop runs whenever !streams_full()")
     adapters = ("std::iter::Iterator::take", "std::iter::Iterator::skip", "std::iter::Iterator::filter", "std::iter::Iterator::take_while", "std::iter::Iterator::skip_while", "std::iter::Iterator::step_by", "std::iter::Iterator::rev")
     for name in ("insert", "pop", "pop_by_token"):
         b = R.body("socket::ConnectingPerAddr::" + name)
@@ -328,6 +338,12 @@ def c13_5(R):
             R.ok("synack-matched-by-ack_nr", ack.name, "pop(msg.header.ack_nr)")
         else:
             R.fail([ack.name, "pop-key", k.describe()[:50]], "the SYN-ACK is matched to a pending connect by something other than the acknowledged SYN sequence number", where=t.where(), instance="synack-matched-by-ack_nr")
+    # the per-address entry is dropped when (and only when) the pop emptied it
+    erem = [t for t in ack.calls() if (t.resolved or "").endswith("OccupiedEntry::remove") or (t.callee or "").endswith("OccupiedEntry::remove")]
+    if erem and all(any(d == "call:ConnectingPerAddr::is_empty=true" for c, truth, d, *_ in controlling(ack, t.bb)) for t in erem):
+        R.ok("synack=>emptied-entry-removed", ack.name, "occ.remove() under is_empty() = true after the pop")
+    else:
+        R.fail([ack.name, "emptied-entry", "removed=%s" % bool(erem)], "after a SYN-ACK released the last connecting slot of an address the per-address entry is not removed (or a non-empty one is): the table of pending connects leaks an entry per peer / forgets pending connects", where=ack.where(), instance="synack=>emptied-entry-removed")
     # requester gone => key removed
     ins = [t for t in ack.calls() if call_on_field(ack, t, ("HashMap::insert",), "Dispatcher.streams")]
     rem = [t for t in ack.calls() if call_on_field(ack, t, ("HashMap::remove",), "Dispatcher.streams")]
